@@ -43,8 +43,9 @@ type Solver struct {
 	cmd  *exec.Cmd
 	in   io.WriteCloser
 	out  *bufio.Reader
-	seq  int
-	dead bool
+	seq      int
+	dead     bool
+	killOnce sync.Once
 }
 
 func startSolver(k SolverKind) (*Solver, error) {
@@ -65,11 +66,13 @@ func startSolver(k SolverKind) (*Solver, error) {
 }
 
 func (s *Solver) kill() {
-	if s.cmd != nil && s.cmd.Process != nil {
-		s.cmd.Process.Kill()
-		s.cmd.Wait()
-	}
-	s.dead = true
+	s.killOnce.Do(func() {
+		s.dead = true
+		if s.cmd != nil && s.cmd.Process != nil {
+			s.cmd.Process.Kill()
+			go s.cmd.Wait()
+		}
+	})
 }
 
 // roundTrip sends text followed by an echo marker and returns all output lines before the marker.
@@ -400,17 +403,30 @@ func (p *SolverPool) Solve(asserts []*Term, timeoutMs int, portfolio []SolverKin
 	termMu.Lock()
 	script, inputs, sels := ScriptSel(asserts, extraDecls())
 	termMu.Unlock()
+	var live []*Solver
+	var liveMu sync.Mutex
 	run1 := func(k SolverKind, sc string, withModel bool, label string) QueryResult {
 		s, err := p.get(k)
 		if err != nil {
 			return QueryResult{Verdict: Unknown, Err: err.Error(), Solver: k.Name}
 		}
+		liveMu.Lock()
+		live = append(live, s)
+		liveMu.Unlock()
 		var r QueryResult
 		if withModel {
 			r = s.check(sc, inputs, sels, timeoutMs)
 		} else {
 			r = s.check(sc, nil, nil, timeoutMs)
 		}
+		liveMu.Lock()
+		for i, x := range live {
+			if x == s {
+				live = append(live[:i], live[i+1:]...)
+				break
+			}
+		}
+		liveMu.Unlock()
 		p.put(s)
 		if label != "" {
 			r.Solver = label
@@ -421,6 +437,14 @@ func (p *SolverPool) Solve(asserts []*Term, timeoutMs int, portfolio []SolverKin
 		p.stats.byKind[r.Solver]++
 		p.mu.Unlock()
 		return r
+	}
+	killLosers := func() {
+		liveMu.Lock()
+		for _, x := range live {
+			x.kill()
+		}
+		live = nil
+		liveMu.Unlock()
 	}
 	if len(portfolio) == 1 {
 		return run1(portfolio[0], script, true, "")
@@ -478,7 +502,8 @@ func (p *SolverPool) Solve(asserts []*Term, timeoutMs int, portfolio []SolverKin
 		r := <-ch
 		got++
 		if r.Verdict != Unknown {
-			// the losers finish on their own (bounded by the timeout) and return to the pool
+			// the losers are killed at once (a solver that keeps running would starve the other workers)
+			killLosers()
 			go func(n int) {
 				for i := 0; i < n; i++ {
 					<-ch
